@@ -305,6 +305,41 @@ def replay_dispatch(which, rng=None):
     return dict(confirmed=False, call='%s over a history of %d dispatches' % (which, rounds), observed='conforms')
 
 
+class Interfering(list):
+    """A listener list on which ANOTHER thread registers at the worst moment: right after the code has taken a copy of the
+    list (`target + [...]`, `target[:]`, `list(target)`, `target.copy()`), i.e. between the read and the write-back of a
+    non-atomic update.  A single `append` / `insert` / `+=` takes no copy and meets no interference.  (Interference
+    injected at the read points of shared state - a directed schedule, not an exploration; seeded change C13-r11.)"""
+    intruder = None
+    fired = False
+
+    def _interfere(self):
+        if not self.fired and self.intruder is not None:
+            self.fired = True
+            list.append(self, self.intruder)
+
+    def __add__(self, other):
+        r = list.__add__(self, other)
+        self._interfere()
+        return r
+
+    def __getitem__(self, k):
+        r = list.__getitem__(self, k)
+        if isinstance(k, slice):
+            self._interfere()
+        return r
+
+    def copy(self):
+        r = list.copy(self)
+        self._interfere()
+        return r
+
+    def __iter__(self):
+        snap = tuple(list.__iter__(self))
+        self._interfere()
+        return iter(snap)
+
+
 class Register(Unit):
     prop = 'C13'
     name = 'C13.register'
@@ -322,8 +357,14 @@ class Register(Unit):
         dup = bool(E.fork(2, 'registered-before'))
         pre = {n: [PacketListener(lambda p: None, PC) for i in range(k)] + ([PacketListener(cb, PA, PC)] if dup else [])
                for k, n in enumerate(names)}
+        racing = bool(E.fork(2, 'another-thread-registers'))
+        intruder = PacketListener(lambda p: None, PB)
         for n in names:
-            conn.__dict__[n] = list(pre[n])
+            if racing:
+                conn.__dict__[n] = Interfering(pre[n])
+                conn.__dict__[n].intruder = intruder
+            else:
+                conn.__dict__[n] = list(pre[n])
         e = E.fork(3, 'early')
         o = E.fork(3, 'outgoing')
         kw = {}
@@ -334,6 +375,14 @@ class Register(Unit):
         I.call(raw(Connection, 'register_packet_listener'), conn, cb, PA, PC, **kw)
         target = {(False, False): 'packet_listeners', (True, False): 'early_packet_listeners',
                   (False, True): 'outgoing_packet_listeners', (True, True): 'early_outgoing_packet_listeners'}[(e == 2, o == 2)]
+        if racing:
+            lst = conn.__dict__[target]
+            mine = [x for x in list.__iter__(lst) if isinstance(x, PacketListener) and x.callback is cb and x not in pre[target]]
+            E.check('register.no-lost-update', len(mine) == 1 and (not getattr(lst, 'fired', False) or
+                                                                    any(x is intruder for x in list.__iter__(lst))),
+                    note='a registration made by another thread between the copy and the write-back of a non-atomic list update '
+                         'must not be lost (registration = ONE atomic list operation)')
+            return None
         for n in names:
             lst = conn.__dict__[n]
             if n == target:
@@ -491,6 +540,20 @@ def replay_register():
                     if not ok:
                         return dict(confirmed=True, n=n, call='listener registered via %s with %r' % (via, kw),
                                     observed='list %s is wrong afterwards (expected the new listener at the end of %s only)' % (v, target))
+                # another thread registers between a copy of the list and its write-back: nothing may be lost
+                c2 = Connection('localhost', 25565)
+                il = Interfering(getattr(c2, target))
+                il.intruder = PacketListener(lambda p: None, PB)
+                setattr(c2, target, il)
+                g = lambda p: None
+                c2.register_packet_listener(g, PA, **kw)
+                cur = list(list.__iter__(getattr(c2, target)))
+                if il.fired and not any(x is il.intruder for x in cur) or not any(getattr(x, 'callback', None) is g for x in cur):
+                    return dict(confirmed=True, n=n, call='register_packet_listener(%r) while another thread registers into the same '
+                                'list between the copy and the write-back' % (kw,),
+                                observed='the list afterwards lacks %s' % ('the other thread\'s listener (lost update)'
+                                                                           if il.fired and not any(x is il.intruder for x in cur)
+                                                                           else 'the new listener'))
                 # the very same registration once more: a second listener
                 k0 = len(getattr(c, target))
                 c.register_packet_listener(f, PA, PC, **kw)
